@@ -270,6 +270,12 @@ func runCheck(prop, tier string) int {
 				}{rs.Name, f, false})
 			}
 		}
+		if rs.Conform == 0 {
+			rs.Conform = 120
+			if tier == "thorough" {
+				rs.Conform = 1500
+			}
+		}
 		if rs.Conform > 0 {
 			n, steps, errs := conformance(e, rs.Conform)
 			ev.Conformed, ev.ConformSteps = n, steps
